@@ -99,4 +99,8 @@ ApplyDecimal(w, b) == Apply(w, b)
 IsDecimalSep(w) == w = "coma"
 DecimalMark == ","
 Annotate(toks) == {}
+
+Vocabulary == DOMAIN Guarded \cup DOMAIN Plain \cup {"cero", "segundo", "mil", "milésimo", "milésima", "millon", "millón", "millonésimo", "millonésima",
+               "y", "coma", "millones", "doscientos", "doscientas", "quinientos", "novecientas", "primeros", "primeras", "segundos", "segundas",
+               "terceros", "décimos", "vigésimas", "centésimos", "milésimos", "doceavos", "unos", "unas", "miles", "gatos", "el"}
 =============================================================================
